@@ -11,6 +11,7 @@ R5.4  text/binary bodies are not JSON-decoded: every function that emits `respon
       type first excludes str/bytes
 R5.5  no-content => None on the primary and the secondary path
 R5.7  the SSE runtime decoder itself: accumulator typestate and field parsing                 [rules shared with C18]
+R5.9  the handler's "is the named schema a type alias?" tests exclude what ModelVisitor's classification excludes (enums are classes)
 R5.8  every declared media type of a response passes the streaming classification in the loader
 R5.6  streaming: the handler delegates chunks/events to the runtime decoders unchanged (decoders themselves: C18)
 """
@@ -166,6 +167,7 @@ def run(repo: Repo, rep: Report, tier: str) -> None:
 
     _streaming_runtime(repo, rep)
     _stream_classification(repo, rep)
+    _alias_classification(repo, rep)
 
     # ---------------------------------------------------------------- R5.6 streaming delegation
     wsr = hmod.classes["EndpointResponseHandlerGenerator"].methods["_write_strategy_based_return"]
@@ -192,6 +194,64 @@ def _streaming_runtime(repo: Repo, rep: Report) -> None:
     r = _Relabel(rep, "R5.7")
     c18._sse_typestate(sse, r)
     c18._parse_event_rules(pe, r)
+
+
+def _neg_attrs(e: ast.AST) -> Set[str]:
+    """IR attributes read under a negation: `not x.a`, `not getattr(x, "a", None)`"""
+    out: Set[str] = set()
+    for n in ast.walk(e):
+        if isinstance(n, ast.UnaryOp) and isinstance(n.op, ast.Not):
+            for x in ast.walk(n.operand):
+                if isinstance(x, ast.Attribute):
+                    out.add(x.attr)
+                if isinstance(x, ast.Call) and dotted(x.func) == "getattr" and len(x.args) >= 2 and const_str(x.args[1]):
+                    out.add(const_str(x.args[1]) or "")
+    return out
+
+
+def _alias_classification(repo: Repo, rep: Report) -> None:
+    """R5.9: the handler decides `cast(T, json)` vs `structure_from_dict(json, T)` by asking whether the named schema T is rendered as a type
+    alias.  That question is answered a second time in ModelVisitor (which really renders T).  The handler's copy must exclude everything
+    the model visitor excludes - in particular enums, which are classes: a `cast()` would hand the caller a plain str."""
+    mv = repo.func("visit.model.model_visitor:ModelVisitor.visit_IRSchema")
+    ML = Locals(mv.node)
+    mv_pred = [n for n in own_nodes(mv.node) if isinstance(n, ast.Assign) and any("properties" in _neg_attrs(ML.inline(n.value, stop=tuple(ML.params))) for _ in [0])
+               and isinstance(n.value, (ast.BoolOp, ast.Call))]
+    rep.require(len(mv_pred) >= 1, "R5.9: ModelVisitor's type-alias predicate not found (anchor)")
+    if not mv_pred:
+        return
+    want = _neg_attrs(ML.inline(mv_pred[0].value, stop=tuple(ML.params))) & {"properties", "enum"}
+    hmod = repo.module(HANDLER)
+    cls = hmod.classes["EndpointResponseHandlerGenerator"]
+    n_pred = 0
+    for fn in cls.methods.values():
+        FL = Locals(fn.node)
+        for n in own_nodes(fn.node):
+            if not isinstance(n, ast.BoolOp) or not isinstance(n.op, ast.And) or isinstance(parent(n), ast.BoolOp):
+                continue
+            # expand calls of small predicate helpers of the same class (`self._is_alias_schema(schema)`)
+            parts: List[ast.AST] = []
+            for v in n.values:
+                vi = FL.inline(v, stop=tuple(FL.params))
+                parts.append(vi)
+                for c in [x for x in ast.walk(vi) if isinstance(x, ast.Call) and isinstance(x.func, ast.Attribute) and x.func.attr in cls.methods]:
+                    h = cls.methods[c.func.attr]
+                    parts += [r.value for r in own_nodes(h.node) if isinstance(r, ast.Return) and r.value is not None]
+            neg: Set[str] = set()
+            for p_ in parts:
+                neg |= _neg_attrs(p_)
+            if "properties" not in neg:
+                continue
+            n_pred += 1
+            sub = f"{hmod.relpath}:{fn.qualname} type-alias test #{n_pred}"
+            missing = sorted(want - neg)
+            if not missing:
+                rep.ok("R5.9", sub, f"excludes {sorted(want)} like ModelVisitor's alias predicate", fn.loc(n))
+            else:
+                rep.violation("R5.9", sub, f"{fn.fq}|alias-predicate-missing|{missing}",
+                              f"this copy of the 'is it a type alias?' test does not exclude schemas with {missing} although ModelVisitor renders those as classes: "
+                              "a named enum body is returned through cast() as a plain str instead of the enum member", fn.loc(n))
+    rep.require(n_pred >= 2, f"R5.9: only {n_pred} type-alias tests found in the response handler (floor 2)")
 
 
 def _stream_classification(repo: Repo, rep: Report) -> None:
